@@ -174,7 +174,35 @@ def systematic():
         qs.append(grp(a, {"t": "graph", "name": V("g"), "g": grp(bgp((V("x"), V("r2"), V("o2"))))}))
         qs.append(grp({"t": "graph", "name": I("g3"), "g": grp(a)}))
         qs.append(grp({"t": "graph", "name": I("nosuch"), "g": grp(a)}))
+    # EXISTS / NOT EXISTS / MINUS / OPTIONAL evaluated inside GRAPH ?g: the active graph is part of what the inner pattern sees
+    for a in A_POOL[:4]:
+        for b in B_POOL[:3]:
+            for k in ("exists", "notexists"):
+                qs.append(grp({"t": "graph", "name": V("g"), "g": grp(a, {"t": "filter", "e": {"e": k, "g": grp(b)}})}))
+                qs.append(grp(a, {"t": "graph", "name": V("g"), "g": grp(b, {"t": "filter", "e": {"e": k, "g": grp(a)}})}))
+            qs.append(grp({"t": "graph", "name": V("g"), "g": grp(a, {"t": "minus", "g": grp(b)})}))
+            qs.append(grp({"t": "graph", "name": V("g"), "g": grp(a, {"t": "optional", "g": grp(b)})}))
     return qs
+
+
+def wide_graph(rng, lo=14, hi=20):
+    """enough triples that joins see operands of a dozen rows"""
+    U = universe()
+    return rng.sample(U, rng.randint(lo, hi))
+
+
+def wide_dataset(rng):
+    """the same subjects in every graph, different triples about them"""
+    quads = [t + ["D"] for t in rng.sample(universe(), 8)]
+    for g in ("g1", "g2"):
+        quads += [t + [g] for t in rng.sample(universe(), rng.randint(6, 9))]
+    return {"op": "data", "quads": quads, "graphs": ["g1", "g2"]}
+
+
+def wide_queries():
+    """the operator shapes whose evaluation strategy depends on operand size or on the active graph"""
+    import json
+    return [w for w in systematic() if any(k in json.dumps(w) for k in ('"subselect"', '"t": "group"', '"exists"', '"notexists"', '"t": "graph"', '"values"'))]
 
 
 # ---------------------------------------------------------------- random, deeper
